@@ -304,6 +304,9 @@ func seqInts(n int) []int {
 	return s
 }
 
+// NamedKey: a map key type whose underlying type is string (e.g. a point-type or id type of a client)
+type NamedKey string
+
 const p53 = int64(1)<<53 - 1
 
 var strAlpha = []string{"", "x", "0", "é✓😀", "a b\n", "\x00"}
@@ -385,6 +388,7 @@ func allKindsT(thorough bool) []kind {
 		mkKind("map[string]string", mapsOf(nil, map[string]string{"a": "x"}, map[string]string{"a": ""}, map[string]string{"a": "y"}, map[string]string{"a": "x", "b": "y"}, map[string]string{"0": "z"}, map[string]string{"é": "✓"}), func() map[string]string { return map[string]string{"k": "seven", "0": "eight"} }),
 		mkKind("map[string]bool", mapsOf(nil, map[string]bool{"a": true}, map[string]bool{"a": false}, map[string]bool{"a": true, "b": false}), func() map[string]bool { return map[string]bool{"k": true} }),
 		mkKind("map[string]float64", mapsOf(nil, map[string]float64{"a": 1.5}, map[string]float64{"a": 0}, map[string]float64{"a": math.Inf(1), "b": -2}), func() map[string]float64 { return map[string]float64{"k": 7} }),
+		mkKind("map[NamedKey]int", []func() map[NamedKey]int{func() map[NamedKey]int { return nil }, func() map[NamedKey]int { return map[NamedKey]int{"a": 1} }, func() map[NamedKey]int { return map[NamedKey]int{"a": 2, "b": 0} }, func() map[NamedKey]int { return map[NamedKey]int{"0": 5} }}, func() map[NamedKey]int { return map[NamedKey]int{"k": 7} }),
 		mkKind("struct", cs(Flat{}, Flat{A: 1}, Flat{B: "x"}, Flat{C: 2.5}, Flat{D: true}, Flat{A: -1, B: "é", C: math.Inf(1), D: true}, Flat{A: int(p53), B: "0"}), func() Flat { return Flat{7, "seven", 7.5, true} }),
 		mkKind("*struct", []func() *Flat{func() *Flat { return nil }, func() *Flat { return &Flat{} }, func() *Flat { return &Flat{A: 1} }, func() *Flat { return &Flat{B: "x", D: true} }, func() *Flat { return &Flat{A: -1, B: "é", C: 2.5, D: true} }}, func() *Flat { return &Flat{7, "seven", 7.5, true} }),
 	}
